@@ -406,6 +406,19 @@ class Session:
             ev["views"] = {"len": -1, "size": -1, "index": [], "iter": []}
         self.emit(ev)
 
+    def op_ol_refill(self, op):
+        """clear an object list and append the same number of fresh objects"""
+        f = self.field_of(op["p"])
+
+        def do():
+            lst = self.lookup(op["p"])
+            lst.clear()
+            for _ in range(f["n"]):
+                e_ = self.classes[f["cls"]]()
+                lst.append(vsc.rand_attr(e_) if f["rand"] else vsc.attr(e_))
+        e = self.guarded(do)
+        self.emit({"op": "ol_refill", "p": op["p"], "exc": e, "post": self.project(), "stk": stk()})
+
     # ---- calls
     def _do_call(self, call, extra_pins=None):
         """performs the randomize call described by `call`; extra_pins: list of (path, bits)"""
